@@ -20,4 +20,12 @@ def run(res):
     if th:
         Kt = wc.base(Acts={'proc', 'process', 'fault', 'inframe'}, Prios={-1, 0, 5}, Dts={0, 1}, **base, **P4)
         wc.check_and_replay(res, 'c07_all', Kt, own, depth_all=0, walks=0, edges=False)
+    # desper.bisect against its contract (the insertion index decides the execution order)
+    from .. import common, replay
+    from ..adapters.bisect import BisectAdapter
+    desper = common.import_desper()
+    r, g = res.model_check_py('Bisect', 'c07_bisect', {'Vals': {-1, 0, 1, 5}, 'MaxLen': 5 if th else 4},
+                           invariants=['RightContract', 'LeftContract', 'InsortKeepsSorted', 'RightIsAfterEquals'], dump=True)
+    st = replay.run_paths(g, lambda: BisectAdapter(desper), replay.edge_paths(g))
+    res.absorb(st, 'c07_bisect:every-input', g)
     wc.trace_validate(res, 'c07_recorded', wc.big({'proc', 'process', 'fault', 'toggle', 'clear', 'inframe'}), 2000 if th else 150, 60)
